@@ -111,9 +111,39 @@ type BoolFact struct {
 // site of its parent (immediately invoked or through a local), the facts at
 // that site are appended (interprocedural context, one level per closure).
 func BoolFactsAt(in ssa.Instruction) []BoolFact {
+	return boolFactsOfBlock(in.Block(), true)
+}
+
+func boolFactsOfBlock(b *ssa.BasicBlock, ctx bool) []BoolFact {
 	var out []BoolFact
-	b := in.Block()
 	fn := b.Parent()
+	seen := map[ssa.Value]bool{}
+	var add func(subj ssa.Value, val bool)
+	add = func(subj ssa.Value, val bool) {
+		subj, pol := BoolSubject(subj)
+		val = val == pol
+		out = append(out, BoolFact{subj, val})
+		// a && b  ==  phi [false, ..., b]  known true  =>  b true, and the facts of b's block
+		// a || b  ==  phi [true, ..., b]   known false =>  b false, and the facts of b's block
+		if phi, ok := subj.(*ssa.Phi); ok && !seen[phi] {
+			seen[phi] = true
+			var rest []int
+			for i, e := range phi.Edges {
+				if cv, isC := ConstCond(e); isC && cv == !val {
+					continue
+				}
+				rest = append(rest, i)
+			}
+			if len(rest) == 1 {
+				i := rest[0]
+				add(phi.Edges[i], val)
+				pred := phi.Block().Preds[i]
+				for _, f := range boolFactsOfBlock(pred, false) {
+					out = append(out, f)
+				}
+			}
+		}
+	}
 	for _, d := range fn.Blocks {
 		if len(d.Instrs) == 0 {
 			continue
@@ -122,15 +152,34 @@ func BoolFactsAt(in ssa.Instruction) []BoolFact {
 		if !ok || len(d.Succs) != 2 || d.Succs[0] == d.Succs[1] {
 			continue
 		}
-		subj, pol := BoolSubject(iff.Cond)
 		if EdgeDominates(d, d.Succs[0], b) {
-			out = append(out, BoolFact{subj, pol})
+			add(iff.Cond, true)
 		} else if EdgeDominates(d, d.Succs[1], b) {
-			out = append(out, BoolFact{subj, !pol})
+			add(iff.Cond, false)
 		}
 	}
-	if site := SoleCallSite(fn); site != nil {
-		out = append(out, BoolFactsAt(site)...)
+	if ctx {
+		if site := SoleCallSite(fn); site != nil {
+			out = append(out, boolFactsOfBlock(site.Block(), true)...)
+		}
+	}
+	return out
+}
+
+// CmpFactsAt returns the comparison facts (X op Y) known at the instruction.
+func CmpFactsAt(in ssa.Instruction) []Fact {
+	var out []Fact
+	for _, bf := range BoolFactsAt(in) {
+		if b, ok := bf.Subj.(*ssa.BinOp); ok {
+			switch b.Op {
+			case token.EQL, token.NEQ, token.LSS, token.LEQ, token.GTR, token.GEQ:
+				op := b.Op
+				if !bf.Val {
+					op = negate(op)
+				}
+				out = append(out, Fact{Op: op, X: b.X, Y: b.Y})
+			}
+		}
 	}
 	return out
 }
@@ -497,4 +546,97 @@ func soleStaticCaller(fn *ssa.Function) ssa.Instruction {
 	}
 	soleCallerMemo[fn] = sites[0]
 	return sites[0]
+}
+
+// AssumeNonNil returns an edge filter that, at every If comparing a value
+// satisfying pred with nil, only lets the non-nil edge through.
+func AssumeNonNil(pred ValPred) func(from, to *ssa.BasicBlock) bool {
+	return func(from, to *ssa.BasicBlock) bool {
+		if len(from.Instrs) == 0 {
+			return true
+		}
+		iff, ok := from.Instrs[len(from.Instrs)-1].(*ssa.If)
+		if !ok || len(from.Succs) != 2 || from.Succs[0] == from.Succs[1] {
+			return true
+		}
+		subj, pol := BoolSubject(iff.Cond)
+		b, ok := subj.(*ssa.BinOp)
+		if !ok || (b.Op != token.EQL && b.Op != token.NEQ) {
+			return true
+		}
+		var other ssa.Value
+		switch {
+		case IsNilConst(b.Y):
+			other = b.X
+		case IsNilConst(b.X):
+			other = b.Y
+		default:
+			return true
+		}
+		if !pred(other) {
+			return true
+		}
+		// subject true means (other == nil) for EQL, (other != nil) for NEQ
+		nonNilWhenSubj := b.Op == token.NEQ
+		condForNonNil := nonNilWhenSubj == pol
+		if condForNonNil {
+			return to == from.Succs[0]
+		}
+		return to == from.Succs[1]
+	}
+}
+
+// ErrWrappers are the functions whose result carries (wraps) an error argument.
+var ErrWrappers = []Spec{
+	{"fmt", "", "Errorf"},
+	{"github.com/pkg/errors", "", "WithMessage"}, {"github.com/pkg/errors", "", "WithMessagef"},
+	{"github.com/pkg/errors", "", "Wrap"}, {"github.com/pkg/errors", "", "Wrapf"},
+	{"github.com/pkg/errors", "", "WithStack"},
+	{"github.com/hashicorp/go-multierror", "", "Append"},
+	{"./lib/errutil", "", "Join"},
+	{"errors", "", "Join"},
+	{"golang.org/x/xerrors", "", "Errorf"},
+}
+
+// ErrDerives reports whether error value v carries a value satisfying src:
+// directly, or through the wrapping functions (any argument, incl. varargs elements).
+func ErrDerives(v ssa.Value, src ValPred) bool {
+	seen := map[ssa.Value]bool{}
+	var rec func(v ssa.Value) bool
+	rec = func(v ssa.Value) bool {
+		if seen[v] {
+			return false
+		}
+		seen[v] = true
+		for _, r := range Roots(v, false) {
+			if src(r) {
+				return true
+			}
+			call, _ := CallOfValue(r)
+			if call == nil || !MatchCC(&call.Call, ErrWrappers...) {
+				continue
+			}
+			for _, a := range call.Call.Args {
+				if rec(a) {
+					return true
+				}
+				// varargs: slice of a local array filled by stores
+				if sl, ok := a.(*ssa.Slice); ok {
+					if arr, ok := sl.X.(*ssa.Alloc); ok && arr.Referrers() != nil {
+						for _, ref := range *arr.Referrers() {
+							if ia, ok := ref.(*ssa.IndexAddr); ok && ia.Referrers() != nil {
+								for _, r2 := range *ia.Referrers() {
+									if st, ok := r2.(*ssa.Store); ok && st.Addr == ia && rec(st.Val) {
+										return true
+									}
+								}
+							}
+						}
+					}
+				}
+			}
+		}
+		return false
+	}
+	return rec(v)
 }
